@@ -2579,6 +2579,90 @@ def m_option_map(ip, st, fr, t, args, site, dest_ty):
     yield from call_some(st, inner)
 
 
+def _first_generic(ty, head):
+    i = ty.find(head + '<')
+    if i < 0:
+        return ''
+    j = i + len(head) + 1
+    depth = 0
+    k = j
+    while k < len(ty):
+        ch = ty[k]
+        if ch in '<([':
+            depth += 1
+        elif ch in '>)]':
+            if depth == 0:
+                break
+            depth -= 1
+        elif ch == ',' and depth == 0:
+            break
+        k += 1
+    return ty[j:k].strip()
+
+
+def m_result_map_err(ip, st, fr, t, args, site, dest_ty):
+    """Result::map_err(res, closure): Ok(v) stays Ok(v), Err(e) becomes Err(closure(e))"""
+    res, clo = args
+    OKK = ('adt', 'std::result::Result', 0, 'Ok')
+    ERR = ('adt', 'std::result::Result', 1, 'Err')
+    if clo is None or clo[0] != 'agg' or clo[1][0] != 'closure' or res is None:
+        yield from ip.unknown_external(st, t['resolved'] or t['callee'], args, site, dest_ty, t)
+        return
+
+    def err_path(s, payload):
+        for (ret, s2, status, detail) in call_closure(ip, s, fr, clo, [payload], site):
+            if status == 'ok':
+                yield (('agg', ERR, (ret,)), s2, 'ok', None)
+            else:
+                yield (ret, s2, status, detail)
+    if res[0] == 'agg' and res[1][0] == 'adt' and res[1][3] in ('Ok', 'Err'):
+        if res[1][3] == 'Ok':
+            yield (res, st, 'ok', None)
+        else:
+            yield from err_path(st, res[2][0])
+        return
+    okty = _first_generic(dest_ty, 'Result')
+    d = ip.discriminant(st, res, 64)
+    s_ok = st.copy()
+    if not is_int(d) or s_ok.env.assume_eq(d, 0):
+        if is_int(d):
+            s_ok.decisions.append((d, 'Ok', site))
+        inner = ip.project(s_ok, ip.project(s_ok, res, ('d', 0, 'Ok')), ('f', 0, '0', okty, ''))
+        if inner is None:
+            inner = s_ok.fresh(type_bits(okty), 'ok')
+        yield (('agg', OKK, (inner,)), s_ok, 'ok', None)
+    if not is_int(d) or st.env.assume_eq(d, 1):
+        if is_int(d):
+            st.decisions.append((d, 'Err', site))
+        e = ip.project(st, ip.project(st, res, ('d', 1, 'Err')), ('f', 0, '0', '', ''))
+        if e is None:
+            e = st.fresh(0, 'err')
+        yield from err_path(st, e)
+
+
+def m_size_of(ip, st, fr, t, args, site, dest_ty):
+    g = (t.get('generics') or '').strip()
+    ty = g[1:-1].strip() if g.startswith('[') and g.endswith(']') else g
+    adt = ip.adts.get(ty)
+    if adt and adt.get('size') is not None:
+        yield (C(64, adt['size']), st, 'ok', None)
+        return
+    it = int_type(ty)
+    if it:
+        yield (C(64, max(1, it[0] // 8)), st, 'ok', None)
+        return
+    yield (st.fresh(64, 'size_of'), st, 'ok', None)
+
+
+def m_from_raw_parts(ip, st, fr, t, args, site, dest_ty):
+    """slice::from_raw_parts(_mut)(ptr, len): a view of len elements starting at the pointee"""
+    ptr, ln = args
+    if ptr is not None and ptr[0] == 'ref' and ln is not None and is_int(ln):
+        yield (('slice', ptr[1], ptr[2], C(64, 0), ln), st, 'ok', None)
+    else:
+        yield from ip.unknown_external(st, t['resolved'] or t['callee'], args, site, dest_ty, t)
+
+
 def m_option_is(which):
     def f(ip, st, fr, t, args, site, dest_ty):
         v = args[0]
@@ -2690,6 +2774,10 @@ STD_MODELS = {
     'std::option::Option::<T>::expect': m_option_unwrap,
     'std::option::Option::<T>::and_then': m_and_then,
     'std::option::Option::<T>::map': m_option_map,
+    'std::result::Result::<T, E>::map_err': m_result_map_err,
+    'std::mem::size_of': m_size_of,
+    'std::slice::from_raw_parts_mut': m_from_raw_parts,
+    'std::slice::from_raw_parts': m_from_raw_parts,
     'std::option::Option::<T>::is_some': m_option_is('Some'),
     'std::option::Option::<T>::is_none': m_option_is('None'),
     # formatting machinery: pure value constructors
